@@ -353,3 +353,37 @@ Proof.
       * rewrite O3. now rewrite (denote_env ρ σ σ2 W P2).
     + intros l Hl. destruct (PR3 l ltac:(lia)) as [-> ->]. split; [now apply P2|now apply R2].
 Qed.
+
+(** ** Results that stay alive *)
+Lemma read_stable σ σ' r : (forall k, r = Ok (HRef k) -> k < length σ) ->
+  (forall l, l < length σ -> pl_of σ' l = pl_of σ l) -> read σ' r = read σ r.
+Proof.
+  intros Hk P. destruct r as [[z|k]|c|s]; cbn [read denote]; try reflexivity.
+  now rewrite (P k (Hk k eq_refl)).
+Qed.
+
+(** Every result, read at the very end with all the others still alive, is what its program
+    yields alone; no buffer that existed at the start - the context's in particular - has
+    changed; and each result handle points into the final store. *)
+Theorem keep_spec es : forall ρ σ σ' rs, wf σ ρ -> run_keep ρ σ es = (σ', rs) ->
+  map (read σ') rs = map (peval (map (denote σ) ρ)) es /\ length σ <= length σ' /\
+  (forall l, l < length σ -> pl_of σ' l = pl_of σ l) /\
+  (forall l, l < length σ -> rc_of σ l <= rc_of σ' l) /\
+  Forall (fun r => forall k, r = Ok (HRef k) -> k < length σ') rs.
+Proof.
+  induction es as [|e es IH]; intros ρ σ σ' rs W; cbn [run_keep map].
+  - intros [= <- <-]. repeat split; auto.
+  - destruct (eval_h ρ σ e) as [σ1 r] eqn:Ee.
+    destruct (eval_h_spec e ρ σ σ1 r W Ee) as [(L1 & P1 & R1 & F1) D1].
+    assert (W1 : wf σ1 ρ) by (apply (wf_mono ρ σ σ1 W L1); intros l Hl; rewrite (R1 l Hl); lia).
+    destruct (run_keep ρ σ1 es) as [σ2 rs'] eqn:Ek. intros [= <- <-].
+    destruct (IH ρ σ1 σ2 rs' W1 Ek) as (D2 & L2 & P2 & R2 & F2).
+    assert (Hk : forall k, r = Ok (HRef k) -> k < length σ1) by (intros k E; now destruct (F1 k E)).
+    split; [|split; [lia|split; [|split]]].
+    + cbn [map]. f_equal.
+      * rewrite (read_stable σ1 σ2 r Hk P2). exact D1.
+      * rewrite D2. now rewrite (denote_env ρ σ σ1 W P1).
+    + intros l Hl. rewrite (P2 l ltac:(lia)). now apply P1.
+    + intros l Hl. specialize (R2 l ltac:(lia)). rewrite (R1 l Hl) in R2. lia.
+    + constructor; [intros k E; specialize (Hk k E); lia|exact F2].
+Qed.
